@@ -50,6 +50,9 @@ MarshalWhy(ev) ==
           \o Label("list: ", Differs(subj, Single(o.list), envs))
           \o (IF ev.parts THEN Label("specification reading: ", Differs(subj, ReadPolicy(o.text), envs)) ELSE <<>>)
           \o (IF o.retext = "differs" THEN <<"second rendering differs">> ELSE <<>>)
+          \* "built programmatically": the public builder API (package ast) applied to the subject's own structure
+          \* must build the subject
+          \o (IF "builder" \in DOMAIN o /\ o.builder = "differs" THEN <<"the builder API builds a different tree">> ELSE <<>>)
 
 ByRank(items) == SortSeq(items, LAMBDA x, y : x.rank < y.rank)
 SeqWhy(what, subjects, res, envs) ==
